@@ -49,36 +49,57 @@ def kindRange : Kind → Int × Int
 theorem store_exact (k : Kind) (b : Bool) (t : Tok) (v : Val) (x : Int) (hk : isIntKind k = true)
     (ht : tokInt t = some x) (h : storePrim (.prim k b) t = some v) :
     valInt v = some x ∧ (kindRange k).1 ≤ x ∧ x ≤ (kindRange k).2 := by
-  sorry
+  obtain ⟨body, tag⟩ := t
+  cases body <;> simp [tokInt] at ht <;> subst ht <;>
+    cases k <;> simp [isIntKind] at hk <;>
+    simp [storePrim, intRange, uintMax, two63, two64] at h <;>
+    (obtain ⟨hc, rfl⟩ := h) <;> simp [valInt, kindRange] <;> omega
 
 /-- Values that do not fit are errors: never wrapped, truncated or sign-flipped. -/
 theorem store_rejects_unfit (k : Kind) (b : Bool) (t : Tok) (x : Int) (hk : isIntKind k = true)
     (ht : tokInt t = some x) (hr : x < (kindRange k).1 ∨ (kindRange k).2 < x) :
     storePrim (.prim k b) t = none := by
-  sorry
+  obtain ⟨body, tag⟩ := t
+  cases body <;> simp [tokInt] at ht <;> subst ht <;>
+    cases k <;> simp [isIntKind] at hk <;>
+    simp [kindRange] at hr <;>
+    simp [storePrim, intRange, uintMax, two63, two64] <;> omega
 
 /-- …and values that fit are accepted, in either token spelling. -/
 theorem store_accepts_fit (k : Kind) (b : Bool) (t : Tok) (x : Int) (hk : isIntKind k = true)
     (ht : tokInt t = some x) (hr : (kindRange k).1 ≤ x ∧ x ≤ (kindRange k).2) :
     ∃ v, storePrim (.prim k b) t = some v := by
-  sorry
+  obtain ⟨body, tag⟩ := t
+  cases body <;> simp [tokInt] at ht <;> subst ht <;>
+    cases k <;> simp [isIntKind] at hk <;>
+    simp [kindRange] at hr <;>
+    simp [storePrim, intRange, uintMax, two63, two64] <;> omega
 
 /-- Floats are never accepted into integer targets. -/
 theorem float_not_into_int (k : Kind) (b : Bool) (bits : Nat) (tag : Option Int) (hk : isIntKind k = true) :
     storePrim (.prim k b) ⟨.float bits, tag⟩ = none := by
-  sorry
+  cases k <;> simp [isIntKind] at hk <;> simp [storePrim]
 
 /-- float64 targets take float tokens bit-exactly; float32 targets by rounding (the model's `narrowF32`). -/
 theorem float_into_float (b : Bool) (bits : Nat) (tag : Option Int) :
     storePrim (.prim .f64 b) ⟨.float bits, tag⟩ = some (.float bits) ∧
     storePrim (.prim .f32 b) ⟨.float bits, tag⟩ = some (.float (FloatText.narrowF32 bits)) := by
-  sorry
+  constructor <;> simp [storePrim]
 
 /-- An untyped slot receives exactly the serialized integer (as `int`, or `uint64` above MaxInt64). -/
 theorem untyped_exact (ts : Types) (a : Atlas) (trs : Trs) (it : IfaceTys) (fuel : Nat) (t : Tok) (rest : List Tok) (x : Int)
     (ht : tokInt t = some x) (hr : -9223372036854775808 ≤ x ∧ x ≤ 18446744073709551615) (htag : t.tag = none) :
     ∃ dt v, unmWild ts a trs it (fuel + 1) t rest = .ok (.iface (some (dt, v))) rest 1 ∧ valInt v = some x := by
-  sorry
+  obtain ⟨body, tag⟩ := t
+  simp at htag
+  subst htag
+  cases body <;> simp [tokInt] at ht <;> subst ht
+  · rename_i i
+    exact ⟨it.int, .int i, by simp [unmWild], by simp [valInt]⟩
+  · rename_i n
+    by_cases hn : n < two63
+    · exact ⟨it.int, .int n, by simp [unmWild, hn], by simp [valInt]⟩
+    · exact ⟨it.uint64, .uint n, by simp [unmWild, hn], by simp [valInt]⟩
 
 example : (storePrim (.prim .int8 true) ⟨.int 300, none⟩).isNone = true := by decide
 example : (storePrim (.prim .uint16 false) ⟨.int 65535, none⟩).isSome = true := by decide
